@@ -20,6 +20,26 @@ CHECKS = {
              'driver (validator soundness proved), and a monitor evaluates the property on each run.',
         note=E1 + "executor='process' only through the theorem (same fifo_stream code path) — OS schedule not controlled.",
         ref='§5 C01', engine='E1-detsched+lean'),
+    'C03': dict(
+        technique='Lean 4 proof (pull machine of nested generators = terminated-stream list semantics, by a denotation invariant + fuel monotonicity/totality; counting invariant for look-ahead; list lemmas for the operator laws) + differential runs of the real Stream against the compiled model',
+        text='C03_pull_eq_sem / C03_exhaust_eq_sem / C03_pull_fuel_independent: for every program over map, filter, '
+             'filter_exceptions, peek, head, tail, batch, unbatch, groupby(+materialising map), accumulate, buffer, parmap, '
+             'shuffle (arbitrary functions, sizes, selectors), every finite input with or without a terminal source error, '
+             'every prefetch oracle and every consumption depth k, the generator-protocol model (next/takeK over feed/flush) '
+             'delivers exactly the first k values of the sequential meaning semAll and then its ending. Operator laws '
+             '(C03_law_*: map/filter = List.map/filter, head = take, tail = drop, batch shape, unbatch after batch = id, '
+             'filter_exceptions raises exactly the first exception neither kept nor dropped, groupby shape), '
+             'C03_shuffle_perm (permutation for every choice script), C03_lazy (building pulls nothing), '
+             'C03_incremental(_k) (one-to-one chains pull <= handed + sum of per-operator constants). Tie on every run: '
+             'random programs x inputs run on the real Stream (full, partial and repeated consumption, instrumented source, '
+             'scripted random) and compared by drv pipeline with semAll and the pull machine (outputs, ending, pull counts); '
+             'a Python reference meaning is the monitor that yields replays.',
+        note='Lean 4 kernel + axioms {propext, Classical.choice, Quot.sound}; hand-written model tied to /repo by differential '
+             'runs on the programs/inputs generated per run (sampled); the look-ahead constants of buffer (n+2) and parmap '
+             '(2*concurrency+3) are imported from C08, their thread-level behaviour is C01/C05/C08; pull counts of pipelines '
+             'with buffer/parmap are OS-schedule dependent and only checked against model bounds; groupby only with the '
+             'documented materialising map; peek: identity only; small buffers are kept out of early-stop contexts (F6, C05).',
+        ref='§5 C03', engine='E3-differential+lean'),
     'C05': dict(
         technique='Lean 4 proof (progress + decreasing measure + invariants on LTS models of fifo_stream and Buffer) + schedule-controlled trace refinement',
         text='C05_fifo_terminates (every execution has at most 9n+9 steps) and C05_fifo_progress (some action enabled in '
